@@ -37,6 +37,24 @@ KDH(sad_loop) {
             for (int y = 0; y < bh; y++)
                 for (int x = 0; x < bw; x++) ref[(py + y) * rs + px + 1 + x] = src[y * ss + x];
     }
+    /* The SSE4.1/AVX2 loops accumulate in saturating 16-bit lanes (mpsadbw + adds_epu16) and only
+     * some shapes widen in time, so when every candidate's SAD exceeds 65535 (e.g. a 24x64 edge SB
+     * with no usable match) they may return another position / a clipped SAD than C.  Such cases
+     * are a sub-domain of their own (tag), so that this limitation cannot hide other mismatches. */
+    {
+        uint32_t mn = 0xffffffffu;
+        for (int sy = 0; sy < sah && mn > 65535; sy++)
+            for (int sx = 0; sx < saw && mn > 65535; sx++) {
+                uint32_t sad = 0;
+                for (int y = 0; y < bh; y += sub ? 2 : 1)
+                    for (int x = 0; x < bw; x++) {
+                        int d = src[y * ss + x] - ref[(sy + y) * rs + sx + x];
+                        sad += (uint32_t)(d < 0 ? -d : d);
+                    }
+                if (sad < mn) mn = sad;
+            }
+        if (mn > 65535) ktag(k, "all-sads-above-65535");
+    }
     uint64_t *best = (uint64_t *)kb(k, 1, 8, 8);
     int16_t  *xc = (int16_t *)kb(k, 1, 2, 2), *yc = (int16_t *)kb(k, 1, 2, 2);
     ka(k, "block_width", bw), ka(k, "block_height", bh), ka(k, "search_area_width", saw), ka(k, "search_area_height", sah), ka(k, "sub", sub),
